@@ -65,21 +65,22 @@ func (m *Mutex) Unlock() {
 
 // ---------------------------------------------------------------- RWMutex
 
-// RWMutex models Go's writer preference: a writer that has *arrived* at Lock blocks readers
-// that arrive later, while readers that were already waiting at RLock when the writer arrived
-// may still go first (in the real implementation they could have executed RLock before the
-// writer announced itself).
+// RWMutex models Go's writer preference in two explicit steps: a writer first *announces*
+// itself (a scheduling point of its own, always enabled), which blocks readers from then on, and
+// then acquires when the readers already inside are gone. Writers queue among themselves in
+// announcement order (sync.RWMutex serialises writers on an inner mutex).
 type RWMutex struct {
-	real    sync.RWMutex
-	writer  bool
-	readers int
-	pending []int64 // arrival numbers of writers waiting in Lock
-	wowner  string
-	rowners []string
+	real      sync.RWMutex
+	w         Mutex // writers serialise on an inner mutex, as in sync.RWMutex
+	announced bool  // a writer holds w and has announced itself: new readers wait
+	writer    bool
+	readers   int
+	wowner    string
+	rowners   []string
 }
 
 func (m *RWMutex) holders() []string {
-	if m.writer {
+	if m.writer || m.announced {
 		return []string{m.wowner}
 	}
 	return append([]string(nil), m.rowners...)
@@ -91,23 +92,19 @@ func (m *RWMutex) Lock() {
 		m.real.Lock()
 		return
 	}
-	var my int64
-	s.Update(func() {
-		my = s.Seq()
-		m.pending = append(m.pending, my)
+	// Three steps, as in the real implementation: (1) take the writers' mutex, (2) announce -
+	// from then on new readers wait, (3) acquire once the readers that got in before are gone.
+	// Each is a scheduling point: a context switch between a thread's previous Unlock and its
+	// announcement must be explorable (another thread's RLock may still get in first).
+	m.w.Lock()
+	vsched.Point("RWMutex.Lock.announce", m, nil, func() {
+		m.announced = true
+		m.wowner = s.Committing()
 	})
 	vsched.PointOwned("RWMutex.Lock", m,
-		func() bool { return !m.writer && m.readers == 0 },
-		func() {
-			m.writer = true
-			m.wowner = s.Committing()
-			for i, p := range m.pending {
-				if p == my {
-					m.pending = append(m.pending[:i], m.pending[i+1:]...)
-					break
-				}
-			}
-		}, m.holders)
+		func() bool { return m.readers == 0 },
+		func() { m.writer = true },
+		func() []string { return append([]string(nil), m.rowners...) })
 }
 
 func (m *RWMutex) Unlock() {
@@ -117,7 +114,9 @@ func (m *RWMutex) Unlock() {
 				panic("vsync: unlock of unlocked RWMutex")
 			}
 			m.writer = false
+			m.announced = false
 		})
+		m.w.Unlock()
 		return
 	}
 	m.real.Unlock()
@@ -129,20 +128,8 @@ func (m *RWMutex) RLock() {
 		m.real.RLock()
 		return
 	}
-	var my int64
-	s.Update(func() { my = s.Seq() })
 	vsched.PointOwned("RWMutex.RLock", m,
-		func() bool {
-			if m.writer {
-				return false
-			}
-			for _, p := range m.pending {
-				if p < my {
-					return false // a writer announced itself before this reader arrived
-				}
-			}
-			return true
-		},
+		func() bool { return !m.writer && !m.announced }, // an announced writer blocks new readers
 		func() { m.readers++; m.rowners = append(m.rowners, s.Committing()) },
 		m.holders)
 }
@@ -172,7 +159,9 @@ func (m *RWMutex) RUnlock() {
 func (m *RWMutex) TryLock() bool {
 	ok := false
 	if !vsched.Point("RWMutex.TryLock", m, nil, func() {
-		if !m.writer && m.readers == 0 {
+		if !m.writer && !m.announced && m.readers == 0 && !m.w.held {
+			m.w.held = true
+			m.announced = true
 			m.writer = true
 			ok = true
 		}
@@ -185,7 +174,7 @@ func (m *RWMutex) TryLock() bool {
 func (m *RWMutex) TryRLock() bool {
 	ok := false
 	if !vsched.Point("RWMutex.TryRLock", m, nil, func() {
-		if !m.writer && len(m.pending) == 0 {
+		if !m.writer && !m.announced {
 			m.readers++
 			ok = true
 		}
